@@ -139,9 +139,18 @@ def mutating_observations(xml):
         keep = list(d3.root.iterate_children())  # noqa: F841
     d3.root.merge_text_nodes()
     out["merge"] = trees.extract(d3.root)
-    d4 = Document(xml.replace(">t<", ">  t  <"))
+    spaced = xml.replace(">t<", ">  t  <").replace("-->", "-->  ").replace("<!--", "  <!--").replace("?>", "?> ")
+    d4 = Document(spaced)
     d4.reduce_whitespace()
     out["reduce"] = trees.extract(d4.root)
+    # the same reduction done while loading (parser option, TagNode.parse): whitespace reduction is filter independent
+    # whichever entry point runs it (seeded C08-8: the loader calling the undecorated worker)
+    from delb import ParserOptions
+
+    out["reduce while loading"] = trees.extract(Document(spaced, parser_options=ParserOptions(reduce_whitespace=True)).root)
+    out["reduce in TagNode.parse"] = trees.extract(TagNode.parse(spaced, ParserOptions(reduce_whitespace=True)))
+    if out["reduce while loading"] != out["reduce"]:
+        out["reduce while loading differs from reducing afterwards"] = True
     return out
 
 
